@@ -157,6 +157,43 @@ Definition init_world (epoch seq0 : Z) (todo : nat -> list job) : world :=
 Definition wire_of (tid : nat) (w : world) : list job :=
   map (fun r => (w_ct r, w_pt r)) (filter (fun r => Nat.eqb (w_tid r) tid) (g_wire w)).
 
+(* ---- the start of the connection. The runner task (handle_finished) performs three shared accesses:
+   it stores write_epoch := ctx.epoch, write_seq := ctx.sequence_number, and publishes the state Connected
+   that send() tests under the state lock. Their ORDER is read from the source (Gen flag
+   connected_published_after_stores). Sender tasks may be scheduled at any time: a send() that does not see
+   Connected returns `DTLS not connected` (no step); one that does proceeds with load / fetch_add / send as in
+   `step`. The atomics start at 0 (AtomicU16::new(0), AtomicU64::new(0)). A schedule element is None for the
+   runner, Some tid for a sender task. *)
+Inductive pstep : Set := PubState | PubEpoch | PubSeq.
+Definition pub_program (stores_first : bool) : list pstep :=
+  if stores_first then [PubEpoch; PubSeq; PubState] else [PubState; PubEpoch; PubSeq].
+Record cworld : Set := mkCW {
+  c_conn : bool;               (* state == Connected is visible *)
+  c_pub : list pstep;          (* what the runner still has to do *)
+  c_e0 : Z; c_s0 : Z;          (* ctx.epoch, ctx.sequence_number at the end of the handshake *)
+  c_w : world }.
+Definition cstep (cw : cworld) (who : option nat) : cworld :=
+  let w := c_w cw in
+  match who with
+  | None =>
+      match c_pub cw with
+      | [] => cw
+      | PubState :: rest => mkCW true rest (c_e0 cw) (c_s0 cw) w
+      | PubEpoch :: rest => mkCW (c_conn cw) rest (c_e0 cw) (c_s0 cw)
+                                 (mkWorld (c_e0 cw) (g_seq w) (g_hs_seq w) (g_threads w) (g_wire w))
+      | PubSeq :: rest => mkCW (c_conn cw) rest (c_e0 cw) (c_s0 cw)
+                               (mkWorld (g_epoch w) (c_s0 cw) (g_hs_seq w) (g_threads w) (g_wire w))
+      end
+  | Some tid =>
+      match t_pc (g_threads w tid) with
+      | PIdle => if c_conn cw then mkCW (c_conn cw) (c_pub cw) (c_e0 cw) (c_s0 cw) (step w tid) else cw
+      | _ => mkCW (c_conn cw) (c_pub cw) (c_e0 cw) (c_s0 cw) (step w tid)
+      end
+  end.
+Definition cinit (stores_first : bool) (e0 s0 : Z) (todo : nat -> list job) : cworld :=
+  mkCW false (pub_program stores_first) e0 s0 (mkWorld 0 0 s0 (fun i => mkThread (todo i) PIdle) []).
+Definition crun (cw : cworld) (sched : list (option nat)) : cworld := fold_left cstep sched cw.
+
 (* ------------------------------------------------------------------ receive side *)
 Inductive res (A : Type) : Type := Ok (a : A) | Err | Panic.
 Arguments Ok {A} a.
